@@ -326,10 +326,10 @@ def gen_strings(ctx):
         if isinstance(inp, dict) and "s" in inp:
             out.append((inp["s"], inp.get("stream", "other")))
     ag, xg = AGen(r), XGen(r)
-    for _ in range(ctx.n(2600, 40000)):
+    for _ in range(ctx.n(7000, 60000)):
         d = r.choice([1, 2, 2, 3, 3, 3, depth, depth, depth])
         out.append((ag.ty(d)[0], "annot"))
-    for _ in range(ctx.n(1300, 20000)):
+    for _ in range(ctx.n(3000, 25000)):
         d = r.choice([1, 2, 2, 3, 3, depth])
         x = xg.e(d)
         try:                       # unparenthesised `not` / lambda operands: not every composition is an expression
